@@ -392,6 +392,8 @@ def show_value(v):
         return {bytes(p[0]).decode("utf-8", "replace"): show_value(p[1]) for p in v["v"]}
     if k == "range":
         return "(%d..%d)" % (v["a"], v["b"])
+    if k == "big":
+        return int(("-" if v.get("neg") else "") + bytes(v["digits"]).decode())
     return "?"
 
 
